@@ -103,7 +103,8 @@ def gen(rng, tier):
 def classify(case, impl, model):
     if case.startswith('(skiprun') and impl.startswith('(abort'):
         return 'skipped-run-exhausts-stack'
-    return 'mismatch'
+    from C12 import classify as c12
+    return c12(case, impl, model)
 
 
 def explain(case, impl, model):
